@@ -19,6 +19,13 @@
     ∨ (`max_recompute = m` ∧ (no earlier invocation ∨ `t − last ≥ m`)).  `max_recompute = 0` means
     "every period"; `None` means "only on events".
 
+  * the trigger theorems are stated for `TraceG g`: traces of the period body under ANY loop condition `g`.
+    `g = guard` is `Simulator.run` over plug-in / unplug / recompute events; `g = guardI ign` is the same
+    loop over a queue that also holds events of types `_process_event` has no branch for (base
+    `acnsim.Event`, user subclasses — `AcnModel/Ignored.lean`): they keep the loop going up to their
+    timestamp and change nothing else, so "an event was popped" reads "a plug-in / unplug / recompute
+    event was popped" and the closed form is `runI_invoked_iff`.
+
   Theorems about `EventCore` hold for EVERY configuration (valid or not) and every scheduler /
   pilot-application parameter (failing or not); the `_valid` versions add the closed form of "an
   event was popped in `t`" for valid scenarios from sim-core's loop invariant.
@@ -35,6 +42,7 @@
 -/
 import AcnProofs.Lemmas.SchedView
 import AcnProofs.Lemmas.SchedInfra
+import AcnProofs.Lemmas.IgnoredEvents
 import Mathlib.Tactic
 
 namespace Acn.C05
@@ -43,7 +51,7 @@ open Acn Acn.EventCore
 /-! ## trigger logic (event core) -/
 
 section core
-variable {cfg : EventCore.Cfg} {sched apply : Core → Option Err}
+variable {cfg : EventCore.Cfg} {sched apply : Core → Option Err} {g : Core → Bool}
 
 /-- the constructor's state satisfies the loop-head invariant -/
 theorem head_init (cfg : EventCore.Cfg) : Head (init cfg) := init_head cfg
@@ -65,7 +73,7 @@ example :
 
 /-- AT EVERY LOOP HEAD reached from a loop head: `_resolve` is false and `_last_schedule_update` is
     the period of the last invocation -/
-theorem lastUpd_at_head {c c' : Core} {hs : List Core} (hc : Head c) (ht : Trace cfg sched apply c hs c') :
+theorem lastUpd_at_head {c c' : Core} {hs : List Core} (hc : Head c) (ht : TraceG g cfg sched apply c hs c') :
     c'.resolve = false ∧ c'.lastUpd = c'.invoked.getLast?.map (fun t => (t : Int)) ∧ c'.iter = c.iter + hs.length :=
   let ⟨h, hi, _⟩ := trace_head ht hc
   ⟨h.resolve, h.lastUpd, hi⟩
@@ -78,11 +86,12 @@ theorem run_is_trace (n : Nat) (c c' : Core) (h : run cfg sched apply n c = (c',
 /-- the invocation that precedes period `t` in a list of invocation periods -/
 def lastBefore (l : List Nat) (t : Nat) : Option Nat := (l.filter (· < t)).getLast?
 
-/-- **invoked_iff** — for every configuration, every scheduler/pilot-application parameter, every
+/-- **invoked_iff** — for every configuration, every scheduler/pilot-application parameter, every loop
+    condition `g` (whatever keeps the loop going: known events, `_resolve`, ignored-type events), every
     trace from a loop head `c` to `c'`, every head `h` of the trace (period `h.iter`):
     the scheduler was invoked in that period  ⇔  an event was popped in it, or `max_recompute = m`
     and the previous invocation (if any) lies at least `m` periods back. -/
-theorem invoked_iff {c c' : Core} {hs : List Core} (hc : Head c) (ht : Trace cfg sched apply c hs c')
+theorem invoked_iff {c c' : Core} {hs : List Core} (hc : Head c) (ht : TraceG g cfg sched apply c hs c')
     {h : Core} (hh : h ∈ hs) :
     h.iter ∈ c'.invoked ↔
       popsAt h ≠ [] ∨ ∃ m, cfg.maxRecompute = some m ∧ ∀ u, lastBefore c'.invoked h.iter = some u → m + u ≤ h.iter := by
@@ -111,16 +120,16 @@ theorem invoked_iff {c c' : Core} {hs : List Core} (hc : Head c) (ht : Trace cfg
 
 /-- nothing else is recorded: every invocation period added along a trace is a period of the trace,
     and the heads of a trace are the consecutive periods `c.iter, c.iter+1, …` -/
-theorem invoked_only_in_trace {c c' : Core} {hs : List Core} (hc : Head c) (ht : Trace cfg sched apply c hs c') :
+theorem invoked_only_in_trace {c c' : Core} {hs : List Core} (hc : Head c) (ht : TraceG g cfg sched apply c hs c') :
     (∀ t ∈ c'.invoked, t ∈ c.invoked ∨ ∃ h ∈ hs, h.iter = t) ∧ hs.map (·.iter) = List.range' c.iter hs.length :=
   ⟨trace_cover ht hc, trace_iters ht hc⟩
 
 /-- **invoked_at_most_once** — whatever the parameters do (also when the run aborts with an error in
-    the events, the scheduler or the pilot application), the recorded invocation periods are strictly
-    increasing: at most one invocation per period. -/
-theorem invoked_at_most_once (n : Nat) (c' : Core) (o : Option Err)
-    (h : run cfg sched apply n (init cfg) = (c', o)) : c'.invoked.Pairwise (· < ·) := by
-  have := run_trace n (init cfg) c' o h
+    the events, the scheduler or the pilot application) and whatever keeps the loop going, the recorded
+    invocation periods are strictly increasing: at most one invocation per period. -/
+theorem invoked_at_most_once_any_guard (n : Nat) (c' : Core) (o : Option Err)
+    (h : runG g cfg sched apply n (init cfg) = (c', o)) : c'.invoked.Pairwise (· < ·) := by
+  have := runG_trace n (init cfg) c' o h
   cases o with
   | none =>
     obtain ⟨hs, ht, _⟩ := this
@@ -135,6 +144,10 @@ theorem invoked_at_most_once (n : Nat) (c' : Core) (o : Option Err)
       intro a ha b hb'
       simp at hb'; subst hb'
       exact hH.lt_iter a ha
+
+theorem invoked_at_most_once (n : Nat) (c' : Core) (o : Option Err)
+    (h : run cfg sched apply n (init cfg) = (c', o)) : c'.invoked.Pairwise (· < ·) :=
+  invoked_at_most_once_any_guard (g := guard) n c' o (by rw [runG_guard]; exact h)
 
 theorem invoked_nodup (n : Nat) (c' : Core) (o : Option Err)
     (h : run cfg sched apply n (init cfg) = (c', o)) : c'.invoked.Nodup :=
@@ -163,7 +176,7 @@ theorem invoked_after_events (c : Core) (sched' : Core → Option Err)
     trace is an invocation period  ⇔  some session arrives or departs at `t` or a recompute event
     carries timestamp `t`, or `max_recompute = m` and the previous invocation is ≥ `m` periods back. -/
 theorem invoked_iff_valid (hv : Valid cfg) {c' : Core} {hs : List Core}
-    (ht : Trace cfg sched apply (init cfg) hs c') {t : Nat} (hlt : t < hs.length) :
+    (ht : TraceG g cfg sched apply (init cfg) hs c') {t : Nat} (hlt : t < hs.length) :
     t ∈ c'.invoked ↔
       EventAt cfg t ∨ ∃ m, cfg.maxRecompute = some m ∧ ∀ u, lastBefore c'.invoked t = some u → m + u ≤ t := by
   have hit := trace_iters ht (init_head cfg)
@@ -210,6 +223,64 @@ theorem run_invoked_iff_fuelFor (hv : Valid cfg) (hsch : ∀ c, sched c = none) 
         ∀ u, lastBefore (run cfg sched apply (fuelFor cfg) (init cfg)).1.invoked t = some u → m + u ≤ t) :=
   run_invoked_iff hv hsch hap (fuelFor cfg) (horizon_le_fuelFor cfg) t
 
+/-! ### events of ignored types in the queue (`AcnModel/Ignored.lean`) -/
+
+/-- without ignored-type events the loop is `run` -/
+theorem runI_nil (n : Nat) (c : Core) : runI cfg sched apply [] n c = run cfg sched apply n c := runI_nil_eq n c
+
+/-- **ignored_run_is_trace** — a run over a queue that also holds ignored-type events (any timestamps,
+    late ones included) is a trace of the SAME period body: such events never reach `_resolve`,
+    `_last_schedule_update`, the network or the queue, they only keep the loop going.  So
+    `lastUpd_at_head`, `invoked_iff`, `invoked_only_in_trace`, `invoked_iff_valid` speak about it. -/
+theorem ignored_run_is_trace (ign : List Int) (n : Nat) (c c' : Core) (h : runI cfg sched apply ign n c = (c', none)) :
+    ∃ hs, TraceG (guardI ign) cfg sched apply c hs c' ∧ hs.length ≤ n ∧ (hs.length = n ∨ guardI ign c' = false) :=
+  runG_trace n c c' none h
+
+theorem invoked_at_most_once_ignored (ign : List Int) (n : Nat) (c' : Core) (o : Option Err)
+    (h : runI cfg sched apply ign n (init cfg) = (c', o)) : c'.invoked.Pairwise (· < ·) :=
+  invoked_at_most_once_any_guard n c' o h
+
+/-- **runI_invoked_iff** — the whole run of a valid scenario whose queue also holds ignored-type events
+    with timestamps `ign ≥ 0`, parameters that do not fail, any fuel ≥ `horizonI` (= one past the last
+    timestamp, ignored ones included): the run is `horizonI` periods long, and period `t` is an invocation
+    period ⇔ a session arrives or departs at `t` or a recompute event carries timestamp `t`, or
+    `max_recompute = m` and the previous invocation is ≥ `m` periods back.  The ignored timestamps occur
+    in the length of the run ONLY. -/
+theorem runI_invoked_iff (hv : Valid cfg) {ign : List Int} (h0 : ∀ ts ∈ ign, 0 ≤ ts)
+    (hsch : ∀ c, sched c = none) (hap : ∀ c, apply c = none) (n : Nat) (hn : horizonI cfg ign ≤ n) (t : Nat) :
+    (runI cfg sched apply ign n (init cfg)).2 = none ∧ (runI cfg sched apply ign n (init cfg)).1.iter = horizonI cfg ign ∧
+    (t ∈ (runI cfg sched apply ign n (init cfg)).1.invoked ↔
+      t < horizonI cfg ign ∧ (EventAt cfg t ∨ ∃ m, cfg.maxRecompute = some m ∧
+        ∀ u, lastBefore (runI cfg sched apply ign n (init cfg)).1.invoked t = some u → m + u ≤ t)) := by
+  obtain ⟨c', hr, hI⟩ := runI_spec hv h0 hsch hap n 0 (init cfg) (init_inv hv) (Nat.zero_le _)
+  rw [hr]
+  simp only
+  obtain ⟨hs, ht, _, _⟩ := runG_trace n (init cfg) c' none hr
+  obtain ⟨hH, hit, _⟩ := trace_head ht (init_head cfg)
+  have hiter : c'.iter = horizonI cfg ign := by
+    rw [hI.iter]; omega
+  have hlen : hs.length = horizonI cfg ign := by
+    rw [hit] at hiter
+    simp only [init, Nat.zero_add] at hiter
+    exact hiter
+  refine ⟨trivial, hiter, ?_⟩
+  constructor
+  · intro hm
+    have hlt : t < horizonI cfg ign := by
+      have := hH.lt_iter t hm
+      omega
+    exact ⟨hlt, (invoked_iff_valid hv ht (by omega)).1 hm⟩
+  · rintro ⟨hlt, h⟩
+    exact (invoked_iff_valid hv ht (by omega)).2 h
+
+/-- the same with the fuel the compiled driver uses -/
+theorem runI_invoked_iff_fuelForI (hv : Valid cfg) {ign : List Int} (h0 : ∀ ts ∈ ign, 0 ≤ ts)
+    (hsch : ∀ c, sched c = none) (hap : ∀ c, apply c = none) (t : Nat) :
+    t ∈ (runI cfg sched apply ign (fuelForI cfg ign) (init cfg)).1.invoked ↔
+      t < horizonI cfg ign ∧ (EventAt cfg t ∨ ∃ m, cfg.maxRecompute = some m ∧
+        ∀ u, lastBefore (runI cfg sched apply ign (fuelForI cfg ign) (init cfg)).1.invoked t = some u → m + u ≤ t) :=
+  (runI_invoked_iff hv h0 hsch hap (fuelForI cfg ign) (horizonI_le_fuelForI cfg ign) t).2.2
+
 /-! ### non-vacuity -/
 
 /-- a valid scenario: one station, one session [1,6), a recompute event at 9, `max_recompute = 2` -/
@@ -228,6 +299,15 @@ example : (run exCfg noFail noFail (fuelFor exCfg) (init exCfg)).1.invoked = [0,
 example : (run { exCfg with maxRecompute := none } noFail noFail 12 (init exCfg)).1.invoked = [1, 6, 9]
     ∧ (run { exCfg with maxRecompute := some 0 } noFail noFail 12 (init exCfg)).1.invoked = [0, 1, 2, 3, 4, 5, 6, 7, 8, 9] := by
   decide +kernel
+
+/-- ignored-type events at 6 (the unplug period) and 12 (after everything else): the invocations up to 9
+    are the same, the loop goes on to period 12 on the timer (11), and with `max_recompute = None` the
+    three extra periods see no invocation at all; `horizonI = 13` -/
+example : (runI exCfg noFail noFail [6, 12] (fuelForI exCfg [6, 12]) (init exCfg)).1.invoked = [0, 1, 3, 5, 6, 8, 9, 11]
+    ∧ (runI exCfg noFail noFail [6, 12] (fuelForI exCfg [6, 12]) (init exCfg)).1.iter = 13
+    ∧ (runI { exCfg with maxRecompute := none } noFail noFail [6, 12] 20 (init exCfg)).1.invoked = [1, 6, 9]
+    ∧ (runI { exCfg with maxRecompute := none } noFail noFail [6, 12] 20 (init exCfg)).1.iter = 13
+    ∧ horizonI exCfg [6, 12] = 13 ∧ (∀ ts ∈ [6, 12], (0 : Int) ≤ ts) := by decide +kernel
 
 /-- a failing scheduler: the period is recorded once, the run aborts there -/
 example : (run exCfg (fun c => if c.iter = 3 then some .schedulerFailed else none) noFail 12 (init exCfg)).1.invoked = [0, 1, 3]
@@ -251,12 +331,25 @@ theorem sim_invoked_core (cfg : Sim.Cfg K) (sched : View K → Except Err (Sched
     (Sim.run cfg sched n s).1.core.invoked = (EventCore.run cfg.core noFail noFail n s.core).1.invoked := by
   rw [run_core cfg sched n s h]
 
+/-- the same for a queue that also holds ignored-type events -/
+theorem simI_invoked_core (cfg : Sim.Cfg K) (sched : View K → Except Err (Schedule K)) (ign : List Int) (n : Nat) (s : State K)
+    (h : (Sim.runI cfg sched ign n s).2 = none) :
+    (Sim.runI cfg sched ign n s).1.core.invoked = (EventCore.runI cfg.core noFail noFail ign n s.core).1.invoked := by
+  unfold EventCore.runI
+  rw [runG_core (guardI ign) cfg sched n s h]
+  rfl
+
 /-- **views_faithful** — along a run that raises nothing, the recorded views are in order exactly one
     per invocation, and each carries its invocation period as `current_time` -/
 theorem views_faithful (cfg : Sim.Cfg K) (sched : View K → Except Err (Schedule K)) (n : Nat) (s s' : State K)
     (h : Sim.run cfg sched n s = (s', none)) :
     s'.core.invoked = s.core.invoked ++ (runViews cfg sched n s).map (·.iter) :=
   run_invoked_views cfg sched n s s' h
+
+theorem views_faithful_ignored (cfg : Sim.Cfg K) (sched : View K → Except Err (Schedule K)) (ign : List Int) (n : Nat)
+    (s s' : State K) (h : Sim.runI cfg sched ign n s = (s', none)) :
+    s'.core.invoked = s.core.invoked ++ (runViewsI cfg sched ign n s).map (·.iter) :=
+  runG_invoked_views (guardI ign) cfg sched n s s' h
 
 /-- **sched_sees_handed_view** (after-events, at most once, for the full model) — one trip round the
     loop depends on the scheduler parameter only through its value on `handedView cfg s`, the view of
@@ -345,6 +438,11 @@ theorem isolation_run (cfg : Sim.Cfg K) (sched sched' : View K → Except Err (S
     (h : ∀ v ∈ runViews cfg sched n s, sched v = sched' v) :
     Sim.run cfg sched' n s = Sim.run cfg sched n s ∧ runViews cfg sched' n s = runViews cfg sched n s :=
   run_congr cfg sched sched' n s h
+
+theorem isolation_run_ignored (cfg : Sim.Cfg K) (sched sched' : View K → Except Err (Schedule K)) (ign : List Int)
+    (n : Nat) (s : State K) (h : ∀ v ∈ runViewsI cfg sched ign n s, sched v = sched' v) :
+    Sim.runI cfg sched' ign n s = Sim.runI cfg sched ign n s ∧ runViewsI cfg sched' ign n s = runViewsI cfg sched ign n s :=
+  runG_congr (guardI ign) cfg sched sched' n s h
 
 omit [Add K] [Sub K] [Mul K] [Div K] [Neg K] [LE K] [DecidableLE K] [OfNat K 1] [NatCast K] [HasExp K] in
 /-- the infrastructure description is a function of the static configuration: one entry per
